@@ -412,6 +412,11 @@ SyntaxVisitor::Action DeclarationBinder::visitBasicTypeSpecifier(const BasicType
 
 SyntaxVisitor::Action DeclarationBinder::visitVoidTypeSpecifier(const VoidTypeSpecifierSyntax* node)
 {
+    if (!tys_.empty()) {
+        diagReporter_.InvalidType(node->specifierToken());
+        return Action::Skip;
+    }
+
     pushType(makeType<VoidType>());
 
     return Action::Skip;
